@@ -8,7 +8,7 @@ import random
 
 from .. import common, conc
 
-GEN = ['Locks.v', 'Decisions.v', 'BookGen.v']
+GEN = ['Locks.v', 'Decisions.v', 'BookGen.v', 'CacheGen.v']
 DECISIONS = ['BuildDirs.error_building_file', 'BuildDirs.started_building_file', 'Cache._assert_doesnt_have_norm_cased_file', 'Cache._assert_doesnt_have_subbuild', 'Cache.abort_building_file', 'Cache.finish_building_file', 'Cache.finish_subbuild', 'Cache.start_building_file', 'Cache.start_subbuild', 'Cache.use_cached_operation', 'SimpleOperationExecutor.__init__', 'SimpleOperationExecutor._file_hash', 'SimpleOperationExecutor._file_metadata', 'SimpleOperationExecutor.file_comparison_result']
 SITES = False
 ORDER = False
